@@ -462,8 +462,8 @@ def pbind_spec(rng, insts, tags, offgrid=False, rests=True, timing=True,
     return ['pbind', m]
 
 
-def pmono_spec(rng, insts, tags, offgrid=False):
-    pb = pbind_spec(rng, insts, tags, offgrid, rests=True, mono=True)
+def pmono_spec(rng, insts, tags, offgrid=False, rests=True):
+    pb = pbind_spec(rng, insts, tags, offgrid, rests=rests, mono=True)
     return ['pmono', rng.choice(insts)['name'], pb[1]]
 
 
@@ -660,15 +660,91 @@ def artic_case(rng, insts, tags):
             'start': rng.choice([0.25, 1, 2.5]), 'proto': None}
 
 
+PITCH_KEYS = {'degree', 'mtranspose', 'gtranspose', 'root', 'octave', 'scale',
+              'note', 'midinote', 'ctranspose', 'harmonic', 'detune', 'freq'}
+
+
+def chain_mono_case(rng, insts, tags):
+    """Pchain with a Pmono operand: the chained line stays a mono line (event
+    types are kept: one /s_new, then /n_set, one release) and carries the keys
+    of both operands, the left one winning.
+    `left_controls`: the left Pbind defines values that the mono synth's
+    messages must carry (controls of the instrument, pitch keys) - a class of
+    its own, see proposed_fixes/C14-pchain-over-pmono-left-values.md."""
+    by_name = {i['name']: i for i in insts}
+    # (no rests in the mono line: a left operand that overrides a Rest-valued
+    # key would turn a rest the Pmono already skipped into a note)
+    mono = pmono_spec(rng, insts, tags, False, rests=False)
+    n = len(me.values(mono[2]['tag']))
+    ctl = {c for c, _ in by_name[mono[1]]['controls']}
+    left_controls = False
+    if rng.random() < 0.7:
+        m, ln = {}, rng.randint(max(1, n - 1), n + 2)
+        col = lambda ch, cp=0.3: _column(rng, ln, ch, cp, 0.0, 0.0)
+        if rng.random() < 0.8:
+            m['dur'] = col(GRID_DUR)
+        if rng.random() < 0.3:
+            m['stretch'] = col(STRETCH, 0.6)
+        if rng.random() < 0.3:
+            m['legato'] = col(LEGATO)
+        if rng.random() < 0.3:
+            m['zork'] = col([-1, 0, 1, 0.25, 7.5, 2])
+        if rng.random() < 0.25:
+            for name in rng.sample(['pan', 'foo', 'bar', 'cutoff', 'amp',
+                                    'degree', 'freq', 'index', 'out'],
+                                   rng.randint(1, 2)):
+                m[name] = col({'degree': [3, 4, 8], 'freq': [500, 600.5, 700],
+                               'amp': [0.2, 0.7]}.get(
+                                   name, [-1, 0, 1, 0.25, 7.5, 2]))
+        if not m:
+            m['zork'] = 1
+        if all(me.values(v) is None for v in m.values()) and rng.random() < 0.5:
+            m['dur'] = _as_pattern(rng, [rng.choice(GRID_DUR) for _ in range(ln)])
+        hit = set(m) & (ctl | (PITCH_KEYS if 'freq' in ctl else set())
+                        | ({'db', 'velocity'} if 'amp' in ctl else set()))
+        left_controls = bool(hit)
+        leaf, shape = ['pchain', ['pbind', m], mono], 'pbind<>pmono'
+    else:
+        right = pbind_spec(rng, insts, tags, False, rests=False, mono=True)
+        right[1].pop('tag')
+        right[1]['zork2'] = _as_pattern(rng, list(range(rng.randint(max(1, n - 1),
+                                                                    n + 2))))
+        leaf, shape = ['pchain', mono, right], 'pmono<>pbind'
+    # kept out everywhere: harmonic together with an explicit freq - also when
+    # the two come from different operands
+    maps = [leaf[1][1] if leaf[1][0] == 'pbind' else leaf[1][2],
+            leaf[2][1] if leaf[2][0] == 'pbind' else leaf[2][2]]
+    if any('freq' in m_ for m_ in maps):
+        for m_ in maps:
+            m_.pop('harmonic', None)
+    r = rng.random()
+    if r < 0.5:
+        pat = leaf
+    elif r < 0.75:
+        pat = ['ppar', [leaf, pbind_spec(rng, insts, tags, False)]]
+    else:
+        total = me.timeline(leaf).total
+        pat = ['pdur', rng.randint(1, max(1, int(total * 16) + 4)) / 16.0, leaf]
+    return {'pattern': pat, 'special': 'pchain-pmono', 'shape': shape,
+            'left_controls': left_controls, 'offgrid': False,
+            'latency': rng.choice([0, 0.05, 0.25]),
+            'where': rng.choice(['main', 'routine-system', 'routine-tempo']),
+            'clock': rng.choice(['default', 'system', 'tempo']),
+            'start': rng.choice([0.25, 1, 2.5]), 'proto': None}
+
+
 def special_case(rng, insts, tags):
     """Event forms that end or suspend a stream: the event type 'rest', a None
     delta (ends the player after the event), an infinite dur (the event is
     played, the player is never due again; no gate-off unless sustain is
     given)."""
     form = rng.choice(['type-rest', 'type-rest', 'delta-none', 'dur-inf',
-                       'pmono-artic', 'pmono-artic', 'pmono-artic'])
+                       'pmono-artic', 'pmono-artic', 'pmono-artic',
+                       'pchain-pmono', 'pchain-pmono', 'pchain-pmono'])
     if form == 'pmono-artic':
         return artic_case(rng, insts, tags)
+    if form == 'pchain-pmono':
+        return chain_mono_case(rng, insts, tags)
     pb = pbind_spec(rng, insts, tags, False, rests=False)
     m = pb[1]
     n = len(me.values(m['tag']))
